@@ -120,6 +120,21 @@ def load_after_store():
         _t("export function f(float3 a, float b) -> float3 { float3 p; float3 q; q = a; p = q; p.x = b; p[1] = b; return q; }", "vector copy, write copy, read source"),
         _t("export function f(float3x3 a, float b, int i) -> float3x3 { float3x3 p; float3x3 q; q = a; p = q; p[i][i] = b; return q; }", "matrix copy, write copy, read source", bounds={"i": (0, 2)}),
     ]
+    # --- something between the store and the load that can change the variable: calls writing a global ---------------------
+    W = "int g;\nfunction bump() -> void { g = g + 1; }\nfunction add(int d) -> int { g = g + d; return d * 2; }\n"
+    out += [
+        _t(W + "export function f(int a) -> int { g = a; bump(); return g; }", "global stored, callee writes it, loaded"),
+        _t(W + "export function f(int a) -> int { g = a; int t = add(a); return g + t; }", "global stored, callee with result writes it, loaded"),
+        _t(W + "export function f(int a, int b) -> int { g = a; b = b + 1; bump(); b = b * 2; return g + b; }", "global stored, other work and call, loaded"),
+        _t(W + "export function f(int a) -> int { g = a; return add(1) + g; }", "global stored, call and load in one expression"),
+        _t(W + "export function f(int a) -> int { g = a; return g + add(1) + g; }", "global loaded around a call"),
+        _t(W + "export function f(int a, int n) -> int { g = a; for (int i = 0; i < n; ++i) { bump(); } return g; }", "global stored, callee in loop, loaded", ["loop"], {"n": (0, 3)}),
+        _t("int g;\nfunction rec(int k) -> int { if (k <= 0) return g; g = g + k; return rec(k - 1); }\nexport function f(int a, int n) -> int { g = a; int r = rec(n); return g * 10 + r; }",
+           "global stored, recursive callee writes it", bounds={"n": (0, 3)}, small=True),
+        _t("float3 gv;\nfunction tweak() -> void { gv.x = gv.x + 1.0; }\nexport function f(float3 a) -> float3 { gv = a; tweak(); return gv; }", "global vector stored, callee writes a component"),
+        _t(S + "S gs;\nfunction tweak() -> void { gs.i = gs.i + 1; }\nexport function f(int a) -> int { S t; t.i = a; gs = t; tweak(); return gs.i; }", "global struct stored, callee writes a member"),
+        _t("int[3] ga;\nfunction tweak(int i) -> void { ga[i] = ga[i] + 1; }\nexport function f(int a, int i) -> int { int[3] t; t[i] = a; ga = t; tweak(i); return ga[i]; }", "global array stored, callee writes an element", bounds={"i": (0, 2)}),
+    ]
     return out
 
 
@@ -153,6 +168,10 @@ def constant_casts():
         _t("function g(int p) -> int { return p + 1; }\nexport function f(float a) -> int { return g(a); }", "float variable to int parameter", ["narrow"]),
         _t("export function f(float a) -> int2 { return int2(a, a * 2.0); }", "float variable in int constructor", ["narrow"]),
         _t("function g(uint p) -> uint { return p + 1; }\nexport function f(int a) -> uint { return g(2.5) + g(3); }", "literal to uint parameter", ["narrow"]),
+        _t("function g(uint p) -> uint { return p + 1; }\nexport function f(int a) -> uint { return g(-3) + g(-1); }", "negative literal to uint parameter", ["narrow"]),
+        _t("export function f(int a) -> uint2 { return uint2(-1, 2); }", "negative literal in uint constructor", ["narrow"]),
+        _t("export function f(int a) -> uint3 { return uint3(a, -7, -2147483648); }", "negative literals in uint constructor", ["narrow"]),
+        _t("uint last;\nfunction g(uint p) -> uint { last = p; return p; }\nexport function f(int a) -> uint { return g(-3); }", "negative literal to uint parameter stored in a global", ["narrow", "global"]),
     ]
     return out
 
